@@ -1,4 +1,31 @@
 ---------------------------- MODULE C07RepMsgpack ----------------------------
-(* STUB - length-boundary inputs of Msgpack (see C07RepCbor.tla). *)
-MsgpackRepInputs == { <<0>> }
+(* Length-boundary inputs for MessagePack: every length-carrying head form  *)
+(* (fixstr / str 8,16,32; bin 8,16,32; fixarray / array 16,32; fixmap /     *)
+(* map 16,32; ext 8,16,32) at the boundary counts of its width - 15/16 for  *)
+(* fixarray and fixmap, 31/32 for fixstr, 255/256 for the 8-bit forms, and  *)
+(* the same counts in the wider (non-minimal) forms - followed by exactly / *)
+(* one fewer / one more elements (symbolic repetition).  Maps have distinct *)
+(* text keys, so the decoded value is compared as well as the verdict.      *)
+(* Every input stays below ~1100 bytes.  Used by MC_C07 in TokMode "rep".   *)
+EXTENDS Naturals, Sequences
+LOCAL Rep(x, n) == [i \in 1..(n * Len(x)) |-> x[((i - 1) % Len(x)) + 1]]
+LOCAL BE(n, w) == [i \in 1..w |-> (n \div (256 ^ (w - i))) % 256]
+\* head with count n: w = 0 is the fix form on base code fix (count in the low bits), else code c8/c16/c32 followed by a w-byte big-endian count
+LOCAL Hd(fix, c8, c16, c32, n, w) == IF w = 0 THEN <<fix + n>> ELSE <<CASE w = 1 -> c8 [] w = 2 -> c16 [] w = 4 -> c32>> \o BE(n, w)
+LOCAL Key(i) == <<162, 64 + (i \div 60), 64 + (i % 60)>>          \* fixstr of two characters: distinct text keys
+LOCAL Pairs(n) == IF n = 0 THEN <<>> ELSE [i \in 1..(n * 4) |-> LET p == (i - 1) \div 4  q == (i - 1) % 4 IN IF q < 3 THEN Key(p)[q + 1] ELSE 1]
+LOCAL Adj(n) == {n} \cup (IF n > 0 THEN {n - 1} ELSE {}) \cup {n + 1}
+\* <<count, width>>
+LOCAL Wide == { <<0, 2>>, <<1, 2>>, <<15, 2>>, <<16, 2>>, <<31, 2>>, <<32, 2>>, <<255, 2>>, <<256, 2>>, <<257, 2>>, <<0, 4>>, <<1, 4>>, <<16, 4>>, <<32, 4>>, <<256, 4>> }
+LOCAL Byte == { <<0, 1>>, <<1, 1>>, <<15, 1>>, <<16, 1>>, <<31, 1>>, <<32, 1>>, <<254, 1>>, <<255, 1>> }
+LOCAL Fix15 == { <<0, 0>>, <<1, 0>>, <<14, 0>>, <<15, 0>> }          \* fixarray / fixmap: 4-bit count
+LOCAL Fix31 == { <<0, 0>>, <<1, 0>>, <<15, 0>>, <<16, 0>>, <<30, 0>>, <<31, 0>> }   \* fixstr: 5-bit length
+MsgpackRepInputs ==
+  UNION { { Hd(144, 0, 220, 221, c[1], c[2]) \o Rep(<<0>>, k) : k \in Adj(c[1]) } : c \in Fix15 \cup Wide } \cup           \* arrays of positive fixint 0 (no array 8 form)
+  UNION { { Hd(128, 0, 222, 223, c[1], c[2]) \o Pairs(k) : k \in Adj(c[1]) } : c \in Fix15 \cup Wide } \cup                \* maps with distinct keys (no map 8 form)
+  UNION { { Hd(160, 217, 218, 219, c[1], c[2]) \o Rep(<<97>>, k) : k \in Adj(c[1]) } : c \in Fix31 \cup Byte \cup Wide } \cup   \* text strings
+  UNION { { Hd(0, 196, 197, 198, c[1], c[2]) \o Rep(<<255>>, k) : k \in Adj(c[1]) } : c \in Byte \cup Wide } \cup          \* byte strings (no fix form)
+  UNION { { Hd(0, 199, 200, 201, c[1], c[2]) \o <<5>> \o Rep(<<255>>, k) : k \in Adj(c[1]) } : c \in Byte \cup Wide } \cup  \* ext objects of application type 5
+  { <<220, 0, 16>> \o Rep(<<161, 97>>, 16), <<220, 1, 0>> \o Rep(<<192>>, 256), <<221, 0, 0, 1, 0>> \o Rep(<<145, 1>>, 256) } \cup  \* arrays of strings / nil / nested arrays
+  { <<144 + 15>> \o Rep(<<129, 161, 97, 1>>, 15), <<222, 0, 16>> \o Pairs(15) \o <<162, 97, 97, 144>> }                    \* array of maps; map whose last value is an array
 =============================================================================
